@@ -11,7 +11,7 @@ fn main() {
     let args: Vec<String> = std::env::args().collect();
     // the in-process replay scenarios run with every log statement enabled; the simulated-network
     // scenarios enable it per run (see sim::run_sim)
-    let _tracing = if args.get(1).map(|s| s.starts_with("replay-") || s.starts_with("table-") || s == "codegen-cancel" || s == "limstress").unwrap_or(false) {
+    let _tracing = if args.get(1).map(|s| s.starts_with("replay-") || s.starts_with("table-") || s == "codegen-cancel" || s == "codegen-deadline" || s == "limstress").unwrap_or(false) {
         Some(tracing_all::on_this_thread())
     } else {
         None
